@@ -9,6 +9,7 @@
 
 use arbitrary::Unstructured;
 use bevy::prelude::*;
+use bevy::ecs::system::SystemState;
 use bevy_cobweb::prelude::*;
 use serde::{Deserialize, Serialize};
 use serde_json::{json, Value};
@@ -156,7 +157,28 @@ macro_rules! entity_reactor
 entity_reactor!(E1, 3, EntityMutationTrigger<CA>);
 entity_reactor!(E2, 4, (EntityMutationTrigger<CA>, EntityEventTrigger<Pay<0>>));
 entity_reactor!(E3, 5, (EntityRemovalTrigger<CA>, EntityEventTrigger<Pay<0>>));
-entity_reactor!(E4, 6, (EntityInsertionTrigger<CA>, EntityRemovalTrigger<CA>));
+/// The fourth entity world reactor is an exclusive system: it fetches its parameters - `EntityLocal` among them - twice in
+/// one run (a read-only look first, then the same body as the others). Both fetches belong to the same reaction.
+pub struct E4;
+impl EntityWorldReactor for E4
+{
+    type Triggers = (EntityInsertionTrigger<CA>, EntityRemovalTrigger<CA>);
+    type Local = (u32, u32);
+    fn reactor(self) -> SystemCommandCallback
+    {
+        SystemCommandCallback::new(|world: &mut World, st: &mut SystemState<(EntityLocal<E4>, AllReaders)>, mut n: Local<u32>| {
+            let first = { let (data, _r) = st.get_mut(world); let (e, d) = data.get(); (e, d.0, d.1) };
+            let (mut data, mut r) = st.get_mut(world);
+            let ro = { let (e, d) = data.get(); (e, d.0, d.1) };
+            let ent = data.entity();
+            let (e, d) = data.get_mut();
+            let mut snapshot = (e, d.0, d.1);
+            if ro != snapshot || ent != e || first != snapshot { snapshot.1 = u32::MAX; }
+            d.1 += 1;
+            log_run(6, &mut r, &mut n, Some(snapshot));
+        })
+    }
+}
 
 /// Number of entity world reactors.
 const NE: usize = 4;
